@@ -471,6 +471,32 @@ def h_div():
                        'the four corner quotients <l|u>1 / <l|u>2 of the source text as opaque values'])
 
 
+def h_pow():
+    """PowConstraint x^a (a a constant): replaced by the constant 1 only for a == 0, by the argument itself only for a == 1; integer only for an
+    integer argument and a non-negative integer a; the result box is never narrowed beyond the two end values lb^a, ub^a (opaque ghost values:
+    SAT cannot evaluate pow), contains 0 for an even a over a domain that straddles 0, and is left alone for a fractional or negative a over a
+    domain with negative values.  That x^a is monotone between the ends (and what pow returns) is not decided."""
+    A, L, U = 'g_args[0]', 'g_lb[g_args[0]]', 'g_ub[g_args[0]]'
+    untouched = '((!VP_ISINT(g_pwr) || g_pwr < 0.0) && %s < 0.0)' % L
+    straddle = '(VP_ISINT(g_pwr / 2.0) && %s < 0.0 && %s > 0.0)' % (L, U)   # even exponent over a domain around 0
+    ens = ('(result_var_ == -1 || (result_var_ == %s && g_pwr == 1.0))' % A +
+           ') __CPROVER_ensures((g_pwr == 0.0) ==> (' + box('1.0', '1.0') + ' && result_var_ == -1)' +
+           ') __CPROVER_ensures((g_pwr != 0.0 && g_pwr != 1.0 && %s) ==> (lb_ == __CPROVER_old(lb_) && ub_ == __CPROVER_old(ub_))' % untouched +
+           ') __CPROVER_ensures((g_pwr != 0.0) ==> (ub_ >= __CPROVER_old(ub_) || (ub_ >= POW_L && ub_ >= POW_U))' +
+           ') __CPROVER_ensures((g_pwr != 0.0 && !%s) ==> (lb_ <= __CPROVER_old(lb_) || (lb_ <= POW_L && lb_ <= POW_U))' % straddle +
+           ') __CPROVER_ensures((g_pwr != 0.0 && %s) ==> (lb_ <= __CPROVER_old(lb_) || lb_ <= 0.0)' % straddle +
+           ') __CPROVER_ensures(type_ == var_INTEGER ==> (g_type[%s] == var_INTEGER && VP_ISINT(g_pwr) && g_pwr >= 0.0)' % A +
+           ') __CPROVER_ensures(' + NAR)
+    return h_pc('Pow', ens, nargs_req='g_nargs >= 1 && g_pwr == g_pwr && POW_L == POW_L && POW_U == POW_U && %s <= %s' % (L, U),
+                subst=[(r'auto& m = VP_MPD\(\s*GetModel\(\)\s*\);', '', 1), (r'c\.GetParameters\(\)\[0\]', 'g_pwr', 1),
+                       (r'std::pow\(VP_M_lb\(arg\), pwr\)', 'POW_L', 1), (r'std::pow\(VP_M_ub\(arg\), pwr\)', 'POW_U', 1)],
+                extra_parts=[Fn(CM, r'static bool is_integer_value\(Num n\)', 'bool is_integer_value(double n)', label='mp::FlatModel::is_integer_value', nmatches=1),
+                             'static _Bool VP_M_is_integer_value(double n) { return is_integer_value(n); }\n'
+                             'double g_pwr;            /* the exponent: c.GetParameters()[0] */\ndouble POW_L, POW_U;   /* pow(lb, a), pow(ub, a) as opaque values */\n'],
+                pre='g_pwr = nondet_double(); POW_L = nondet_double(); POW_U = nondet_double();',
+                stubs=['std::pow at the two ends of the argument domain as opaque values'])
+
+
 def practically():
     txt = extract.blank_comments(extract.read_repo(CK))
     a = re.search(r'PracticallyInf\(\)\s*\{\s*return\s*([0-9.eE+-]+)\s*;', txt)
@@ -483,5 +509,5 @@ def practically():
 def _harnesses(tier, seed):
     hs = [h_narrow()] + [h_arr(n) for n in ARR] + [h_common_type(), h_count_fixed()]
     hs += fixed_box_harnesses() + range_harnesses()
-    hs += [h_abs(), h_abs_point(), h_ifthen(), h_minmax('Min'), h_minmax('Max'), h_round(), h_fixeq(), h_andor('And'), h_andor('Or'), h_div()]
+    hs += [h_abs(), h_abs_point(), h_ifthen(), h_minmax('Min'), h_minmax('Max'), h_round(), h_fixeq(), h_andor('And'), h_andor('Or'), h_div(), h_pow()]
     return hs
